@@ -32,14 +32,14 @@ func init() {
 				Old: "\t\toutput[pubkey] = psigs\n\t}",
 				New: "\t\toutput[pubkey] = psigs\n\t\tif ctx.Err() != nil {\n\t\t\treturn ctx.Err()\n\t\t}\n\t}"},
 			{ID: "C07-P3-return-all", File: "core/parsigdb/memory.go", Expect: "P3",
-				Old: "\t\tif len(set) == threshold {\n\t\t\treturn set, true, nil",
-				New: "\t\tif len(set) == threshold {\n\t\t\treturn sigs, true, nil"},
+				Old: "\tif set := sigsByMsgRoot[lastRoot]; len(set) == threshold {\n\t\treturn set, true, nil",
+				New: "\tif set := sigsByMsgRoot[lastRoot]; len(set) == threshold {\n\t\treturn sigs, true, nil"},
 			{ID: "C07-P3-threshold-minus-one", File: "core/parsigdb/memory.go", Expect: "P3",
 				Old: "getThresholdMatching(duty.Type, sigs, db.threshold)",
 				New: "getThresholdMatching(duty.Type, sigs, db.threshold-1)"},
 			{ID: "C07-P3-geq", File: "core/parsigdb/memory.go", Expect: "P3",
-				Old: "\t\tif len(set) == threshold {",
-				New: "\t\tif len(set) >= threshold {"},
+				Old: "\tif set := sigsByMsgRoot[lastRoot]; len(set) == threshold {",
+				New: "\tif set := sigsByMsgRoot[lastRoot]; len(set) >= threshold {"},
 			{ID: "C07-P4-no-scan", File: "core/parsigdb/memory.go", Expect: "P4",
 				Old: "\t\tif s.ShareIdx == value.ShareIdx {",
 				New: "\t\tif s.ShareIdx == value.ShareIdx && s.ShareIdx < 0 {"},
@@ -145,7 +145,7 @@ func c07(c *rt.Ctx) {
 				thrP = p
 			}
 		}
-		if len(fn.Params) != 3 || typP == nil || sigsP == nil || thrP == nil {
+		if typP == nil || sigsP == nil || thrP == nil {
 			c.Bail("getThresholdMatching: unexpected signature")
 		}
 		dutySig := constOf(c, "core", "DutySignature")
@@ -207,6 +207,20 @@ func c07(c *rt.Ctx) {
 						return out
 					}
 				}
+				if p, isParam := an.Resolve(v).(*ssa.Parameter); isParam && depth <= 2 {
+					// a wrapper of the matcher hands its own list parameter on: the callers say
+					if sites, closed := k.ix.Callers(p.Parent()); closed && len(sites) > 0 {
+						out := c07Ok()
+						for _, s := range sites {
+							a := an.H07ArgFor(s, an.H07ParamIndex(p))
+							if a == nil {
+								return c07Unsure("cannot map the list parameter to an argument")
+							}
+							out = out.and(listFrom(a, depth+1))
+						}
+						return out
+					}
+				}
 				sc, idx, ok := c07resultOf(v)
 				if !ok || depth > 2 {
 					return c07Unsure("origin of the list argument is not recognised")
@@ -238,7 +252,22 @@ func c07(c *rt.Ctx) {
 		}
 		// the map entry written for the fan-out is the matching set, on the ok edge
 		var produces func(h *ssa.Function, si, bi, depth int) c07v
-		matchOf := func(v ssa.Value, at ssa.Instruction, depth int) c07v {
+		var matchOf func(v ssa.Value, at ssa.Instruction, depth int) c07v
+		matchOf = func(v ssa.Value, at ssa.Instruction, depth int) c07v {
+			if p, isParam := an.Resolve(v).(*ssa.Parameter); isParam && depth <= 2 {
+				// the write sits in a helper or closure that is handed the set: decide at its call sites
+				if sites, closed := k.ix.Callers(p.Parent()); closed && len(sites) > 0 {
+					out := c07Ok()
+					for _, s := range sites {
+						a := an.H07ArgFor(s, an.H07ParamIndex(p))
+						if a == nil {
+							return c07Unsure("cannot map the published set to an argument")
+						}
+						out = out.and(matchOf(a, s, depth+1))
+					}
+					return out
+				}
+			}
 			mc, idx, ok := c07resultOf(v)
 			if !ok {
 				return c07Unsure("origin of the published set is not recognised")
@@ -384,12 +413,12 @@ func c07(c *rt.Ctx) {
 					continue
 				}
 				addv := add.Value()
-				env := func(v ssa.Value) (constant.Value, bool) {
+				env := k.withSummaries(func(v ssa.Value) (constant.Value, bool) {
 					if v == ssa.Value(addv) {
 						return constant.MakeInt64(expired), true
 					}
 					return nil, false
-				}
+				})
 				decided := 0
 				for _, b := range fn.Blocks {
 					if iff, ok := b.Instrs[len(b.Instrs)-1].(*ssa.If); ok {
@@ -462,7 +491,19 @@ func c07(c *rt.Ctx) {
 						continue
 					}
 					_, _, grow := c07growAppend(x, c07entries)
-					if call, _, isRes := c07resultOf(x.Value); !grow && isRes && k.ix.Callee(&call.Call) != nil {
+					if call, ri, isRes := c07resultOf(x.Value); !grow && isRes && k.ix.Callee(&call.Call) != nil {
+						// the result of an in-package helper: a filtered rebuild of entries[k] itself is the removal written out of line
+						if p := c07filtersParam(k.ix.Callee(&call.Call), ri); p != nil {
+							var lk *ssa.Lookup
+							if a := an.H07ArgFor(call, an.H07ParamIndex(p)); a != nil {
+								lk = c07lookupOf(a)
+							}
+							if lk != nil && c07entries(lk.X) && (lk.Index == x.Key || an.Equiv(lk.Index, x.Key)) {
+								c.Check(k.removalOwner(x, fn)+" entries[k]=", posOf(x), false,
+									"entries[k] is overwritten with something other than append(entries[k], new): stored shares can disappear and threshold be reached again")
+								continue
+							}
+						}
 						c.Unsure(k.removalOwner(x, fn)+" entries[k]=", posOf(x), "entries[k] is assigned the result of "+an.FuncName(k.ix.Callee(&call.Call))+", which is not followed")
 						continue
 					}
